@@ -1195,7 +1195,12 @@ func (e *Engine) overlay(r io.Reader, basePath string, asNew bool) error {
 			return err
 		}
 	}
-	return nil
+
+	// The shard is reopened after a restore, and with a disk-based index a
+	// field set found on disk is taken as it is (the TSM files are not
+	// scanned again): fields that came with the restored files have to be in
+	// it.
+	return e.fieldset.Save()
 }
 
 // readFileFromBackup copies the next file from the archive into the shard.
